@@ -73,8 +73,17 @@ def explicit_causes(ex, s):
 def fresh_until(ex, s, t):
     """No time-based end (heartbeat, poll or read timeout) can have happened up to this time,
     given the PONGs the client had sent before t."""
-    base = [getattr(s, 't_open', None) or 0] + [p for p in s.pongs if p < t]
-    return max(base) + ex.I + ex.T
+    # every PONG (and the OPEN) starts a timer that sends a PING I later; a PING that no PONG
+    # answers within T ends the session. An unsolicited PONG starts a second timer but does not
+    # cancel the first one, so the earliest unanswered PING decides.
+    pongs = sorted(s.pongs)
+    chains = [getattr(s, 't_open', None) or 0] + [p for p in pongs if p < t]
+    due = []
+    for c in chains:
+        lo, hi = c + ex.I, c + ex.I + ex.T
+        if not any(lo <= p <= hi for p in pongs):
+            due.append(hi)
+    return min(due) if due else max(chains) + ex.I + ex.T
 
 
 def monitor(ex, final):
